@@ -112,7 +112,8 @@ pub fn fe_op(op: &str, a: &[&str]) -> R {
 
 /// `fel51.*`, `fel26.*` (`value == false`: result as limbs) and
 /// `felv51.*`, `felv26.*` (`value == true`: result through `as_bytes`).
-pub fn fel_op(width: u32, value: bool, op: &str, a: &[&str]) -> R {
+/// `felF51.*`, `felF26.*` (`fiat == true`): result as limbs, served by the fiat wrapper backends only.
+pub fn fel_op(width: u32, value: bool, fiat: bool, op: &str, a: &[&str]) -> R {
     const OPS: &[&str] = &[
         "add", "sub", "mul", "neg", "square", "square2", "reduce", "pow2k", "from_bytes",
         "as_bytes",
@@ -123,8 +124,8 @@ pub fn fel_op(width: u32, value: bool, op: &str, a: &[&str]) -> R {
     if width != vh::FE_RADIX_BITS {
         return Err(Fail::Skip);
     }
-    // limb-level results are only meaningful for the serial implementation
-    if !value && vh::BACKEND == "fiat" {
+    // limb-level results: `fel*` is the serial implementation, `felF*` the fiat wrapper
+    if !value && (vh::BACKEND == "fiat") != fiat {
         return Err(Fail::Skip);
     }
     let lim = |s: &str| limbs::<vh::FeLimb, { vh::FE_NLIMBS }>(s);
